@@ -112,6 +112,9 @@ def obs_c03(case):
         if msg0 is None:
             return ev
         kwargs = {k: v for k, v in vars(msg0).items() if not k.startswith("_")}
+    if case.get("asint"):
+        # integral floats handed over as Python ints (a float field takes int or float)
+        kwargs = {k: (int(v) if isinstance(v, float) and v == v and abs(v) != float("inf") and v == int(v) else v) for k, v in kwargs.items()}
     if case.get("only") is not None:
         kwargs = {k: v for k, v in kwargs.items() if k in case["only"]}
     for d in case.get("drop", ()):
@@ -232,7 +235,7 @@ def obs_c15(case):
     good = dict(kwargs)
     good.pop(case["tgt"], None)
     ev["kw"] = abstract_kw(lay, good, P0)
-    value = eval(case["value"], {"nan": float("nan"), "inf": float("inf"), "set": set, "__builtins__": {}})  # noqa: S307 - literals written by the harness
+    value = eval(case["value"], {"nan": float("nan"), "inf": float("inf"), "set": set, "memoryview": memoryview, "bytearray": bytearray, "__builtins__": {}})  # noqa: S307 - literals written by the harness
     kwargs[case["tgt"]] = value
     history.run(case.get("hist"))
     msg, out = construct(m, cls, mid, pbf, kwargs)
